@@ -321,6 +321,8 @@ type prewrite1BatchReqHandler struct {
 	sender               *locate.RegionRequestSender
 	resolvingRecordToken *int
 	attempts             int
+	// rpcErrBeforeCancel is set when a send met an RPC error while the prewrite had not been cancelled.
+	rpcErrBeforeCancel bool
 	// begin is the time when the first request is sent,
 	// it will be reset once the total duration exceeds the slowRequestThreshold
 	// It's used to log slow prewrite requests.
@@ -356,7 +358,12 @@ func (handler *prewrite1BatchReqHandler) drop(err error) {
 		// transaction has been successfully committed.
 		// If prewrite has been cancelled, all ongoing prewrite RPCs will become errors, we needn't set undetermined
 		// errors.
-		if (handler.committer.isAsyncCommit() || handler.committer.isOnePC()) && handler.sender.GetRPCError() != nil && atomic.LoadUint32(&handler.committer.prewriteCancelled) == 0 {
+		// Judge by what this request asked for as well: the committer may have fallen back from 1PC / async commit
+		// since the request was sent (e.g. its retry met a region error and was split into several batches).
+		sent := handler.req.Prewrite()
+		mayCommit := handler.committer.isAsyncCommit() || handler.committer.isOnePC() || sent.GetUseAsyncCommit() || sent.GetTryOnePc()
+		notByCancel := handler.rpcErrBeforeCancel || atomic.LoadUint32(&handler.committer.prewriteCancelled) == 0
+		if mayCommit && handler.sender.GetRPCError() != nil && notByCancel {
 			handler.committer.setUndeterminedErr(handler.sender.GetRPCError())
 		}
 	}
@@ -391,6 +398,11 @@ func (handler *prewrite1BatchReqHandler) sendReqAndCheck() (retryable bool, err 
 	reqBegin := time.Now()
 	handler.beforeSend(reqBegin)
 	resp, retryTimes, err := handler.sender.SendReq(handler.bo, handler.req, handler.batch.region, client.ReadTimeoutShort)
+	if handler.sender.GetRPCError() != nil && atomic.LoadUint32(&handler.committer.prewriteCancelled) == 0 {
+		// The RPC error is not a consequence of cancelling the prewrite, even if the prewrite is cancelled later on
+		// (e.g. by the failure of the batches this batch is split into after a region error).
+		handler.rpcErrBeforeCancel = true
+	}
 	// Unexpected error occurs, return it directly.
 	if err != nil {
 		return false, err
